@@ -2,6 +2,10 @@
 package pcommon
 
 import (
+	"testing"
+	"testing/synctest"
+	"time"
+
 	"verif/ref/kcrypto"
 	"verif/vh"
 )
@@ -14,4 +18,18 @@ var UsageSet = []uint32{1, 2, 3, 4, 5, 6, 7, 8, 9, 10, 11, 12, 13, 14, 15, 16, 1
 // (des3 keys get parity and weak-key correction).
 func RefKey(r *vh.Rand, et int32) []byte {
 	return kcrypto.RandomToKey(et, r.Bytes(kcrypto.SeedLen(et)))
+}
+
+// Epoch is the start of the virtual clock inside a synctest bubble.
+var Epoch = time.Date(2000, 1, 1, 0, 0, 0, 0, time.UTC)
+
+// AtVirtual runs f inside a fresh synctest bubble after advancing the virtual clock by offset,
+// so that every time.Now() made by the code under test reads Epoch+offset (until f sleeps).
+func AtVirtual(t *testing.T, offset time.Duration, f func()) {
+	synctest.Test(t, func(t *testing.T) {
+		if offset > 0 {
+			time.Sleep(offset)
+		}
+		f()
+	})
 }
